@@ -153,6 +153,18 @@ Theorem C01_ref_defined : forall e body s x,
 Proof. exact ref_defined. Qed.
 Print Assumptions C01_ref_defined.
 
+(* [mapping_leaf] (Resolver/SubFacts.v): the map name exactly, the two keys by [lookup_bk] (repair of F31: exactly, else -- for the
+   texts "true" / "false" -- by the first entry whose key lower-cases to it), a null leaf counting as missing *)
+Theorem C01_mapping_leaf_unfold : forall e m k1 k2,
+  mapping_leaf e m k1 k2 =
+  match lookup m (mappings e) with
+  | Some (VDict top) => match lookup_bk k1 top with
+                        | Some (VDict snd_) => match lookup_bk k2 snd_ with Some VNull => None | x => x end
+                        | _ => None
+                        end
+  | _ => None
+  end.
+Proof. reflexivity. Qed.
 Theorem C01_find_in_map : forall e m k1 k2, mappings_wf e ->
   do_find_in_map e (VStr m) (VStr k1) (VStr k2) =
   Ok (match mapping_leaf e m k1 k2 with Some leaf => leaf | None => VStr (undefined_mapping m k1 k2) end).
@@ -515,12 +527,16 @@ Theorem C01_findinmap_leaf : forall e m k1 k2 ms s1 s2, mappings_wf e ->
   Ok (match mapping_leaf e ms s1 s2 with Some leaf => leaf | None => VStr (undefined_mapping ms s1 s2) end).
 Proof. exact resolve_find_in_map_leaf. Qed.
 Print Assumptions C01_findinmap_leaf.
+(* RESTATED with the repair of F31 (library acd13a2): the two keys are looked up by [lookup_bk] (exactly, else -- for the texts
+   "true" / "false" -- by the first entry whose key lower-cases to it); with the exact [lookup] in the hypothesis, as before, the
+   statement is false of the repaired resolver (Mappings {"M":{"True":{"k":"yes"}}}, keys "true", "k": "True" is found).
+   [C01_lookup_bk_none] says what [lookup_bk ... = None] means *)
 Theorem C01_findinmap_missing : forall e m k1 k2 ms s1 s2,
   resolve e m = Ok (VStr ms) -> resolve e k1 = Ok (VStr s1) -> resolve e k2 = Ok (VStr s2) ->
   lookup ms (mappings e) = None
   \/ (exists top, lookup ms (mappings e) = Some (VDict top) /\
-        (lookup s1 top = None
-         \/ exists snd_, lookup s1 top = Some (VDict snd_) /\ (lookup s2 snd_ = None \/ lookup s2 snd_ = Some VNull))) ->
+        (lookup_bk s1 top = None
+         \/ exists snd_, lookup_bk s1 top = Some (VDict snd_) /\ (lookup_bk s2 snd_ = None \/ lookup_bk s2 snd_ = Some VNull))) ->
   resolve e (FFindInMap m k1 k2) = Ok (VStr (undefined_mapping ms s1 s2)).
 Proof. exact resolve_find_in_map_missing. Qed.
 Print Assumptions C01_findinmap_missing.
@@ -536,7 +552,7 @@ Example C01_ex_findinmap :
   resolve e1 (FFindInMap (VStr [77]) (VStr [97]) (FRef (VStr [65]))) = Ok (VStr (undefined_mapping [77] [97] [49])) /\
   undefined_mapping [77] [97] [49] = S_UNDEF_MAPPING ++ [77;95;97;95;49].
 Proof. split; [exact e1_mappings_wf|]. repeat split; vm_compute; reflexivity. Qed.
-(* FALSE: (a) "the result is rendered" -- a leaf "True" / 0 / false comes out as written (known finding F14b) *)
+(* FALSE: "the result is rendered" -- a leaf "True" / 0 / false comes out as written (known finding F14b) *)
 Theorem C01_findinmap_unrendered_refuted :
   resolve e_map (FFindInMap (VStr [77]) (VStr [97]) (VStr [84])) = Ok (VStr s_True) /\
   rendered (params e_map) (VStr s_True) = false /\
@@ -544,14 +560,79 @@ Theorem C01_findinmap_unrendered_refuted :
   resolve e_map (FFindInMap (VStr [77]) (VStr [97]) (VStr [102])) = Ok (VBool false).
 Proof. exact find_in_map_unrendered_refuted. Qed.
 Print Assumptions C01_findinmap_unrendered_refuted.
-(* FALSE: (b) "a key is looked up as written" -- Mappings {M: {True: {k: yes}}}: the key "True", literal or through
-   Ref P with P = "True", is rendered to "true" and misses the mapping's "True" *)
-Theorem C01_findinmap_literal_key_refuted :
-  mapping_leaf e_map [77] s_True [107] = Some (VStr [121;101;115]) /\
-  resolve e_map (FFindInMap (VStr [77]) (VStr s_True) (VStr [107])) = Ok (VStr (undefined_mapping [77] (lower s_True) [107])) /\
-  resolve e_map (FFindInMap (VStr [77]) (FRef (VStr [80])) (VStr [107])) = Ok (VStr (undefined_mapping [77] (lower s_True) [107])).
-Proof. exact find_in_map_literal_key_refuted. Qed.
-Print Assumptions C01_findinmap_literal_key_refuted.
+(* the key lookup of Fn::FindInMap (library `_mapping_get`): exactly; a key that is not the text "true" / "false" only exactly;
+   what is found is an entry of the level, under the key or under a spelling of it; [None] = not there as written and, for "true" /
+   "false", under no spelling *)
+Theorem C01_lookup_bk_exact : forall k (d : list (str * value)) v, lookup k d = Some v -> lookup_bk k d = Some v.
+Proof. exact (@lookup_bk_exact value). Qed.
+Print Assumptions C01_lookup_bk_exact.
+Theorem C01_lookup_bk_plain : forall k (d : list (str * value)), k <> S_true -> k <> S_false -> lookup_bk k d = lookup k d.
+Proof. exact (@lookup_bk_plain value). Qed.
+Print Assumptions C01_lookup_bk_plain.
+Theorem C01_lookup_bk_in : forall k (d : list (str * value)) v,
+  lookup_bk k d = Some v -> exists k', In (k', v) d /\ (k' = k \/ (is_bool_text k = true /\ lower k' = k)).
+Proof. exact (@lookup_bk_In value). Qed.
+Print Assumptions C01_lookup_bk_in.
+Theorem C01_lookup_bk_none : forall k (d : list (str * value)),
+  lookup_bk k d = None <-> ~ In k (keys d) /\ (is_bool_text k = true -> forall k', In k' (keys d) -> lower k' <> k).
+Proof. exact (@lookup_bk_None value). Qed.
+Print Assumptions C01_lookup_bk_none.
+Example C01_ex_lookup_bk :
+  let d := [(s_True, VStr [49]); ([97], VStr [50])] in
+  lookup S_true d = None /\ lookup_bk S_true d = Some (VStr [49]) /\ lookup_bk S_false d = None /\ lookup_bk [65] d = None /\
+  lookup_bk [97] d = Some (VStr [50]) /\ [97] <> S_true /\ [97] <> S_false /\ is_bool_text S_true = true /\ lower s_True = S_true.
+Proof. cbv zeta. repeat split; try (vm_compute; reflexivity); discriminate. Qed.
+
+(* TRUE since the repair of F31 (was C01_findinmap_literal_key_refuted): "a key is looked up as written", also a key written like a
+   boolean -- it reaches the lookup as [key_text s] ("True" -> "true") and finds the mapping's "True", PROVIDED the mapping level holds
+   no second spelling of that boolean ([only_spelling]; with two, the first in dictionary order answers: C01_findinmap_first_spelling_wins) *)
+Theorem C01_findinmap_key_text : forall e ms s1 s2 top snd_ leaf,
+  lookup ms (mappings e) = Some (VDict top) -> lookup s1 top = Some (VDict snd_) -> lookup s2 snd_ = Some leaf -> leaf <> VNull ->
+  (is_boolish s1 = true -> only_spelling s1 top) -> (is_boolish s2 = true -> only_spelling s2 snd_) ->
+  do_find_in_map e (VStr ms) (VStr (key_text s1)) (VStr (key_text s2)) = Ok leaf.
+Proof. exact do_find_in_map_boolean_key. Qed.
+Print Assumptions C01_findinmap_key_text.
+Theorem C01_findinmap_boolean_key : forall e ms s1 s2 top snd_ leaf,
+  plain_text ms = true -> ssm_key s1 = None -> ssm_key s2 = None ->
+  lookup ms (mappings e) = Some (VDict top) -> lookup s1 top = Some (VDict snd_) -> lookup s2 snd_ = Some leaf -> leaf <> VNull ->
+  (is_boolish s1 = true -> only_spelling s1 top) -> (is_boolish s2 = true -> only_spelling s2 snd_) ->
+  resolve e (FFindInMap (VStr ms) (VStr s1) (VStr s2)) = Ok leaf.
+Proof. exact resolve_find_in_map_boolean_key. Qed.
+Print Assumptions C01_findinmap_boolean_key.
+Theorem C01_findinmap_boolean_key_ref : forall e ms p s1 s2 top snd_ leaf,
+  plain_text ms = true -> plain_text p = true -> lookup p (params e) = Some (VStr s1) -> ssm_key s1 = None -> ssm_key s2 = None ->
+  lookup ms (mappings e) = Some (VDict top) -> lookup s1 top = Some (VDict snd_) -> lookup s2 snd_ = Some leaf -> leaf <> VNull ->
+  (is_boolish s1 = true -> only_spelling s1 top) -> (is_boolish s2 = true -> only_spelling s2 snd_) ->
+  resolve e (FFindInMap (VStr ms) (FRef (VStr p)) (VStr s2)) = Ok leaf.
+Proof. exact resolve_find_in_map_ref_key. Qed.
+Print Assumptions C01_findinmap_boolean_key_ref.
+(* the old witness: Mappings {M: {True: {k: yes}, a: ...}}, P = "True": the key "True", literal or through Ref P, finds "yes"; every
+   hypothesis of the two theorems holds on it *)
+Example C01_ex_findinmap_boolean_key :
+  lookup [77] (mappings e_map) = Some (VDict [(s_True, VDict [([107], VStr [121;101;115])]);
+                                              ([97], VDict [([84], VStr s_True); ([110], VInt 0); ([102], VBool false)])]) /\
+  only_spelling s_True [(s_True, VDict [([107], VStr [121;101;115])]);
+                        ([97], VDict [([84], VStr s_True); ([110], VInt 0); ([102], VBool false)])] /\
+  lookup [80] (params e_map) = Some (VStr s_True) /\
+  mapping_leaf e_map [77] (lower s_True) [107] = Some (VStr [121;101;115]) /\
+  key_text s_True = lower s_True /\ is_boolish s_True = true /\ plain_text [77] = true /\ plain_text [80] = true /\
+  ssm_key s_True = None /\ ssm_key [107] = None /\ is_boolish [107] = false /\
+  resolve e_map (FFindInMap (VStr [77]) (VStr s_True) (VStr [107])) = Ok (VStr [121;101;115]) /\
+  resolve e_map (FFindInMap (VStr [77]) (FRef (VStr [80])) (VStr [107])) = Ok (VStr [121;101;115]).
+Proof. split; [reflexivity|]. split; [exact e_map_only_spelling|]. split; [reflexivity|]. exact ex_find_in_map_boolean_key. Qed.
+(* FALSE without [only_spelling]: Mappings {M: {TRUE: {k: no}, True: {k: yes}}}: the key "True" finds "no" (the first spelling in
+   dictionary order; the library alike); with the two entries swapped the key "TRUE" finds the entry "True"; a key "true" present as
+   such always answers for itself *)
+Theorem C01_findinmap_first_spelling_wins :
+  let e12 := {| params := []; mappings := maps_two s_TRUE s_True; conds := fun _ => Ok false |} in
+  let e21 := {| params := []; mappings := maps_two s_True s_TRUE; conds := fun _ => Ok false |} in
+  let e3 := {| params := []; mappings := maps_two s_TRUE S_true; conds := fun _ => Ok false |} in
+  resolve e12 (FFindInMap (VStr [77]) (VStr s_True) (VStr [107])) = Ok (VStr [110;111]) /\
+  resolve e21 (FFindInMap (VStr [77]) (VStr s_True) (VStr [107])) = Ok (VStr [110;111]) /\
+  resolve e21 (FFindInMap (VStr [77]) (VStr s_TRUE) (VStr [107])) = Ok (VStr [110;111]) /\
+  resolve e3 (FFindInMap (VStr [77]) (VStr s_True) (VStr [107])) = Ok (VStr [121;101;115]).
+Proof. exact find_in_map_first_spelling_wins. Qed.
+Print Assumptions C01_findinmap_first_spelling_wins.
 
 (* ---- 6. Fn::Base64 ---- *)
 Theorem C01_base64_text : forall e b s, resolve e b = Ok (VStr s) -> resolve e (FBase64 b) = Ok (VStr (b64encode (utf8 s))).
